@@ -26,7 +26,6 @@ def scalarFits (tag : STag) (fmt : Nat) (kind : PKind) : Bool :=
 /-- the well-known message a J5 scalar type stands for -/
 def wktFits (tag : STag) (full : String) : Bool :=
   (tag == .timestamp && full == "google.protobuf.Timestamp") ||
-  (tag == .string && full == "google.protobuf.Duration") ||
   (tag == .date && full == "j5.types.date.v1.Date") ||
   (tag == .decimal && full == "j5.types.decimal.v1.Decimal")
 
@@ -71,36 +70,22 @@ def describesItem (ds : DescSet) (kind : PKind) (t : Target) (s : RField) : Bool
   | .map _ => false
   | .array _ => false
 
-/-- schema `s` describes field `f`: cardinality and element kind agree -/
+/-- schema `s` describes field `f`: cardinality and element kind agree; the element of a list
+or map is not an `Any` (`lib/j5reflect` has no array / map of Any) -/
 def describes (ds : DescSet) (f : FieldD) (s : RField) : Bool :=
   match f.card with
   | .list =>
     match s with
-    | .array i => describesItem ds f.kind f.target i
+    | .array i => i != .any && describesItem ds f.kind f.target i
     | _ => false
   | .map =>
     match s with
     | .map i =>
       match f.mapVal with
-      | some (vk, vt, _) => describesItem ds vk vt i
+      | some (vk, vt, _) => i != .any && describesItem ds vk vt i
       | none => false
     | _ => false
   | .single => describesItem ds f.kind f.target s
-
-/-- the one well-known type whose schema does not describe its field (open finding
-`struct-as-map`): `google.protobuf.Struct` is reflected as a map although it is a message -/
-def notStruct (t : Target) : Bool :=
-  match t with
-  | .msg full _ _ => full != "google.protobuf.Struct"
-  | _ => true
-
-def structFree (f : FieldD) : Bool :=
-  match f.card with
-  | .map =>
-    match f.mapVal with
-    | some (_, vt, _) => notStruct vt
-    | none => true
-  | _ => notStruct f.target
 
 theorem stringKind_tag (like : Bool) (k : Option J5Sum) (t : STag) (h : stringKind like k = .ok t) :
     t = .string ∨ t = .key := by
@@ -129,7 +114,7 @@ theorem buildScalar_fits (kind : PKind) (e : Ext) (key : Option KeySum) (tag : S
     | cases h
 
 theorem wktSchema_describes (ds : DescSet) (full p k : String) (e : Ext) (f : RField)
-    (h : wktSchema full e = .ok (some f)) (hns : full ≠ "google.protobuf.Struct") :
+    (h : wktSchema full e = .ok (some f)) :
     describesItem ds .message (.msg full p k) f = true := by
   unfold wktSchema at h
   split at h
@@ -151,16 +136,12 @@ theorem wktSchema_describes (ds : DescSet) (full p k : String) (e : Ext) (f : RF
     · split at h
       · rename_i hf; simp only [beq_iff_eq] at hf; subst hf; cases h; simp [describesItem, wktFits]
       · split at h
-        · rename_i hf; simp only [beq_iff_eq] at hf; subst hf; cases h; simp [describesItem, wktFits]
-        · split at h
-          · rename_i hf; simp only [beq_iff_eq] at hf; exact absurd hf hns
-          · split at h
-            · rename_i hf
-              cases h
-              simp only [Bool.or_eq_true, beq_iff_eq] at hf
-              simp only [describesItem, beq_self_eq_true, Bool.true_and, Bool.or_eq_true, beq_iff_eq]
-              exact hf
-            · cases h
+        · rename_i hf
+          cases h
+          simp only [Bool.or_eq_true, beq_iff_eq] at hf
+          simp only [describesItem, beq_self_eq_true, Bool.true_and, Bool.or_eq_true, beq_iff_eq]
+          exact hf
+        · cases h
 
 theorem referenceMessage_describes (ds : DescSet) (reg : Reg) (full p k : String) (fl : Bool)
     (b : Built) (h : referenceMessage ds reg full fl = .ok b) :
@@ -188,8 +169,8 @@ theorem referenceMessage_describes (ds : DescSet) (reg : Reg) (full p k : String
       · cases h; exact key _ rfl
 
 theorem buildSchema_describes (ds : DescSet) (reg : Reg) (kind : PKind) (t : Target) (e : Ext)
-    (key : Option KeySum) (b : Built) (h : buildSchema ds reg kind t e key = .ok b)
-    (hns : notStruct t = true) : describesItem ds kind t b.schema = true := by
+    (key : Option KeySum) (b : Built) (h : buildSchema ds reg kind t e key = .ok b) :
+    describesItem ds kind t b.schema = true := by
   unfold buildSchema at h
   split at h
   · -- message
@@ -201,7 +182,7 @@ theorem buildSchema_describes (ds : DescSet) (reg : Reg) (kind : PKind) (t : Tar
       cases w with
       | some f =>
         cases h2
-        exact wktSchema_describes ds full p k e f hw (by simpa [notStruct] using hns)
+        exact wktSchema_describes ds full p k e f hw
       | none => exact referenceMessage_describes ds reg full p k _ b h2
     · cases h
   · -- enum
@@ -226,37 +207,40 @@ theorem buildSchema_describes (ds : DescSet) (reg : Reg) (kind : PKind) (t : Tar
 
 /-- **the property a field produces points at that field and describes it**: its proto path is
 the field's number, and the schema matches the field's cardinality and kind — for every field of
-every message, whatever annotations it carries (`google.protobuf.Struct` excepted) -/
+every message, whatever annotations it carries -/
 theorem buildProperty_describes (ds : DescSet) (reg : Reg) (f : FieldD) (prop : RProp) (b : Built)
-    (h : buildProperty ds reg f = .ok (prop, b)) (hns : structFree f = true) :
+    (h : buildProperty ds reg f = .ok (prop, b)) :
     prop.path = [f.number] ∧ prop.json = f.jsonName ∧ describes ds f prop.schema = true := by
-  unfold buildProperty at h
-  obtain ⟨⟨kind, t, e, key, mk⟩, hplan, h2⟩ := bind_eq_ok h
-  obtain ⟨b', hb, hx⟩ := map_eq_ok h2
-  cases hx
+  obtain ⟨kind, t, e, key, mk, hplan, hb, hprop, hany⟩ := buildProperty_ok h
+  subst hprop
   unfold propertyPlan at hplan
-  unfold structFree at hns
   unfold describes
   cases hc : f.card with
   | list =>
-    simp only [hc] at hplan hns ⊢
+    have hne : b.schema ≠ .any := hany (by simp [hc])
+    simp only [hc] at hplan ⊢
     cases hplan
-    exact ⟨rfl, rfl, buildSchema_describes ds reg _ _ _ _ b hb hns⟩
+    refine ⟨rfl, rfl, ?_⟩
+    simp only [Bool.and_eq_true, bne_iff_ne, ne_eq]
+    exact ⟨hne, buildSchema_describes ds reg _ _ _ _ b hb⟩
   | single =>
-    simp only [hc] at hplan hns ⊢
+    simp only [hc] at hplan ⊢
     cases hplan
-    exact ⟨rfl, rfl, buildSchema_describes ds reg _ _ _ _ b hb hns⟩
+    exact ⟨rfl, rfl, buildSchema_describes ds reg _ _ _ _ b hb⟩
   | map =>
-    simp only [hc] at hplan hns ⊢
+    have hne : b.schema ≠ .any := hany (by simp [hc])
+    simp only [hc] at hplan ⊢
     split at hplan
     · cases hplan
     · cases hmv : f.mapVal with
       | none => simp [hmv] at hplan
       | some x =>
         obtain ⟨vk, vt, vkey⟩ := x
-        simp only [hmv] at hplan hns ⊢
+        simp only [hmv] at hplan ⊢
         cases hplan
-        exact ⟨rfl, rfl, buildSchema_describes ds reg _ _ _ _ b hb hns⟩
+        refine ⟨rfl, rfl, ?_⟩
+        simp only [Bool.and_eq_true, bne_iff_ne, ne_eq]
+        exact ⟨hne, buildSchema_describes ds reg _ _ _ _ b hb⟩
 
 /-! ## the same at the level of the machine and of the resulting schema set -/
 
@@ -337,9 +321,6 @@ def FrameDescribes (ds : DescSet) (fr : Frame) : Prop :=
 def FrameIn (ds : DescSet) (fr : Frame) : Prop :=
   fr.msg ∈ ds.msgs ∧ (∀ f ∈ fr.rest, f ∈ fr.msg.fields) ∧ (∀ x ∈ fr.expose, x.2.1 ∈ fr.msg.oneofs)
 
-/-- no field of the set is a `google.protobuf.Struct` (the recorded exception) -/
-def structFreeSet (ds : DescSet) : Bool := ds.msgs.all fun m => m.fields.all structFree
-
 theorem referenceMessage_opDesc (ds : DescSet) (reg : Reg) (full : String) (fl : Bool) (b : Built)
     (h : referenceMessage ds reg full fl = .ok b) : ∀ op ∈ b.ops, OpDesc ds op := by
   unfold referenceMessage at h
@@ -408,10 +389,7 @@ theorem buildSchema_opDesc (ds : DescSet) (reg : Reg) (kind : PKind) (t : Target
 
 theorem buildProperty_opDesc (ds : DescSet) (reg : Reg) (f : FieldD) (prop : RProp) (b : Built)
     (h : buildProperty ds reg f = .ok (prop, b)) : ∀ op ∈ b.ops, OpDesc ds op := by
-  unfold buildProperty at h
-  obtain ⟨⟨kind, t, e, key, mk⟩, _, h2⟩ := bind_eq_ok h
-  obtain ⟨b', hb, hx⟩ := map_eq_ok h2
-  cases hx
+  obtain ⟨kind, t, e, key, mk, _, hb, _, _⟩ := buildProperty_ok h
   exact buildSchema_opDesc ds reg kind t e key b hb
 
 theorem exposeOneofs_desc (ds : DescSet) (m : Msg) (hm : m ∈ ds.msgs) (os : List OneofD)
@@ -554,7 +532,7 @@ theorem place_desc (ds : DescSet) (fr : Frame) (f : FieldD) (prop : RProp) (hin 
 def Good2 (ds : DescSet) (st : St) : Prop :=
   RegDescribes ds st.reg ∧ ∀ fr ∈ st.stack, FrameIn ds fr ∧ FrameDescribes ds fr
 
-theorem step_describes (ds : DescSet) (hsf : structFreeSet ds = true) (st : St) (hg : Good2 ds st) :
+theorem step_describes (ds : DescSet) (st : St) (hg : Good2 ds st) :
     (∀ st', step ds st = .cont st' → Good2 ds st') ∧
     (∀ reg, step ds st = .done reg → RegDescribes ds reg) := by
   obtain ⟨hreg, hframes⟩ := hg
@@ -577,9 +555,6 @@ theorem step_describes (ds : DescSet) (hsf : structFreeSet ds = true) (st : St) 
       · cases h
     · rename_i f fs hrest
       have hf : f ∈ fr.msg.fields := hfr.1.2.1 f (by simp [hrest])
-      have hsff : structFree f = true := by
-        unfold structFreeSet at hsf
-        exact List.all_eq_true.mp (List.all_eq_true.mp hsf fr.msg hfr.1.1) f hf
       have hin' : FrameIn ds { fr with rest := fs } := by
         refine ⟨hfr.1.1, ?_, hfr.1.2.2⟩
         intro g hg
@@ -591,7 +566,7 @@ theorem step_describes (ds : DescSet) (hsf : structFreeSet ds = true) (st : St) 
         · cases h
         · cases h
         · rename_i prop b hb
-          obtain ⟨hpath, _, hdesc⟩ := buildProperty_describes ds st.reg f prop b hb hsff
+          obtain ⟨hpath, _, hdesc⟩ := buildProperty_describes ds st.reg f prop b hb
           have hp : propDescribes ds fr.msg prop := Or.inl ⟨f, hf, hpath, hdesc⟩
           have hfr' : FrameIn ds (place { fr with rest := fs } f prop) ∧
               FrameDescribes ds (place { fr with rest := fs } f prop) :=
@@ -630,22 +605,22 @@ theorem step_describes (ds : DescSet) (hsf : structFreeSet ds = true) (st : St) 
           · cases h
           · split at h <;> cases h
 
-theorem run_describes (ds : DescSet) (hsf : structFreeSet ds = true) (st : St) :
+theorem run_describes (ds : DescSet) (st : St) :
     Good2 ds st → ∀ reg, run ds st = .ok reg → RegDescribes ds reg := by
   induction st using run.induct ds with
   | case1 x reg h =>
     intro hg reg' h'
     rw [run_done ds x reg h] at h'
     cases h'
-    exact (step_describes ds hsf x hg).2 reg h
+    exact (step_describes ds x hg).2 reg h
   | case2 x e h => intro _ reg' h'; rw [run_fail ds x e h] at h'; cases h'
   | case3 x w h => intro _ reg' h'; rw [run_crash ds x w h] at h'; cases h'
   | case4 x st' h ih =>
     intro hg reg' h'
     rw [run_cont ds x st' h] at h'
-    exact ih ((step_describes ds hsf x hg).1 st' h) reg' h'
+    exact ih ((step_describes ds x hg).1 st' h) reg' h'
 
-theorem buildMessage_describes (ds : DescSet) (hsf : structFreeSet ds = true) (reg : Reg) (m : Msg)
+theorem buildMessage_describes (ds : DescSet) (reg : Reg) (m : Msg)
     (hm : m ∈ ds.msgs) (hreg : RegDescribes ds reg) (reg' : Reg)
     (h : buildMessage ds reg m = .ok reg') : RegDescribes ds reg' := by
   unfold buildMessage at h
@@ -653,7 +628,7 @@ theorem buildMessage_describes (ds : DescSet) (hsf : structFreeSet ds = true) (r
   split at h
   · rename_i fr ops hen
     obtain ⟨hops, hin, hd⟩ := enter_desc ds m hm _ fr ops hen
-    apply run_describes ds hsf _ _ reg' h
+    apply run_describes ds _ _ reg' h
     refine ⟨(hreg.apply (.add m.pkg m.split m.full) trivial).applyAll ops hops, ?_⟩
     intro fr' hfr'
     simp only [List.mem_singleton] at hfr'
@@ -662,7 +637,7 @@ theorem buildMessage_describes (ds : DescSet) (hsf : structFreeSet ds = true) (r
   · cases h
   · cases h
 
-theorem messagesLoop_describes (ds : DescSet) (hsf : structFreeSet ds = true) (names : List String)
+theorem messagesLoop_describes (ds : DescSet) (names : List String)
     (reg : Reg) (hreg : RegDescribes ds reg) (reg' : Reg)
     (h : messagesLoop ds reg names = .ok reg') : RegDescribes ds reg' := by
   induction names generalizing reg with
@@ -682,7 +657,7 @@ theorem messagesLoop_describes (ds : DescSet) (hsf : structFreeSet ds = true) (n
           · split at hms
             · cases hms; exact hreg
             · cases hms
-        · exact buildMessage_describes ds hsf reg m (msg?_mem ds full m hm) hreg reg1 hms
+        · exact buildMessage_describes ds reg m (msg?_mem ds full m hm) hreg reg1 hms
       · cases h
       · cases h
 
@@ -708,13 +683,13 @@ theorem enumsLoop_describes (ds : DescSet) (names : List String) (reg : Reg)
         · cases h
 
 /-- every object / oneof schema of a reflected set points into the message it was built from -/
-theorem schemaSetFromFiles_describes (ds : DescSet) (hsf : structFreeSet ds = true) (reg : Reg)
+theorem schemaSetFromFiles_describes (ds : DescSet) (reg : Reg)
     (h : schemaSetFromFiles ds = .ok reg) : RegDescribes ds reg := by
   unfold schemaSetFromFiles at h
   split at h
   · rename_i reg1 hm
     exact enumsLoop_describes ds ds.topEnums reg1
-      (messagesLoop_describes ds hsf ds.topMsgs [] (by intro e he; cases he) reg1 hm) reg h
+      (messagesLoop_describes ds ds.topMsgs [] (by intro e he; cases he) reg1 hm) reg h
   · cases h
   · cases h
 
